@@ -497,3 +497,7 @@ def _f(res):
 # dont_care "failed-with-other-error-threshold-possibly-reachable"): when a server times out / fails in the first
 # allocation round, the second round re-places shares that already have a bucket on another server; the same share
 # number is then allocated twice and CHKUploader.set_shareholders dies with AssertionError instead of uploading.
+#   seeded/C08-6 (Encoder caches the happiness after a lost shareholder and reuses it while the failing server still
+#                 holds some share) -> success-below-happiness-threshold; needs the directed "duploss" cases: a share
+#                 number pre-existing on a read-only server AND on a writable server that then loses its new buckets
+#                 one after the other (fault kinds raise-from / raise-many) while keeping the duplicate.
